@@ -121,3 +121,10 @@ __CPROVER_requires(wf_String(self) && wf_String(other) && self != other)
 __CPROVER_ensures(str_compare_post(self, other, __CPROVER_return_value))
 __CPROVER_assigns(__CPROVER_object_whole(self); __CPROVER_object_whole(other))
 ;
+_Bool post_replace(const struct String* a);
+struct String* c_String_replace_char(struct String* self, char needle, char replacement)
+__CPROVER_requires(wf_String(self))
+__CPROVER_ensures(post_replace(self) && __CPROVER_return_value == self)
+RELEASED_IF_LAST(self)
+STRING_FRAME(self)
+;
